@@ -35,4 +35,15 @@ def jobs():
                               ("send", "c18_send", "coap_send_internal of a CON"), ("strings", "c18_strings", "strings / error response derived from a request")):
         js.append(Job("scenario-%s" % name, "C18/c18.c", entry, UNITS, extra_src=EXTRA, defines=d, remove_bodies=RB_CLIENT, unwind=24, flags=FS,
                       timeout=1800, est_gb=4, desc="%s: any subset of allocations fails" % desc, bounds={"scenario": name}))
+    # concrete "fail exactly the k-th allocation" (any-subset made the buffer sizes symbolic: SAT out of memory at 12 GB); k past the last allocation = no failure
+    for k in range(0, 6):
+        js.append(Job("scenario-observe@fail%d" % k, "C18/c18.c", "c18_observe", UNITS, extra_src=EXTRA, defines=d + ["C18_OBSERVE", "ENV_FAIL_AT=%d" % k],
+                      remove_bodies=RB_CLIENT + ["coap_cache_derive_key_w_ignore", "coap_delete_cache_key"], unwind=24, flags=FS, timeout=900, est_gb=4,
+                      group="scenario-observe", witness=(k <= 3),
+                      desc="observe registration (coap_add_observer): allocation #%d fails" % k, bounds={"scenario": "observe", "failing allocation": k}))
+    for k in range(0, 7):
+        js.append(Job("scenario-large@fail%d" % k, "C18/c18.c", "c18_large", UNITS, extra_src=EXTRA, defines=[x for x in d if x != "UNREACH_LG_CRCV"] + ["C18_LARGE", "ENV_FAIL_AT=%d" % k],
+                      remove_bodies=[r for r in RB_CLIENT if r != "coap_block_new_lg_crcv"], unwind=50, flags=FS, timeout=900, est_gb=4,
+                      group="scenario-large", witness=(k <= 3),
+                      desc="coap_add_data_large_request_lkd (Block1 transfer state for a 40-byte body): allocation #%d fails" % k, bounds={"scenario": "large", "failing allocation": k}))
     return js
